@@ -8,6 +8,7 @@ package main
 // instant it was consumed and are not frozen; {time now} is the compile instant.
 
 import (
+	"bytes"
 	"fmt"
 	"os"
 	"regexp"
@@ -284,6 +285,21 @@ func init() {
 		sc.MatcherKind, sc.Pattern, sc.IgnoreCase = 1, c10Pattern, false
 		sc.Ignores = nil
 		sc.Workers = t.WRange(1, 4)
+		if family != "time" && family != "timefuncs" && t.WBool(1, 6) {
+			// a tight run: two workers, one line per batch, a handful of lines from one input. With so few steps a particular
+			// interleaving of two workers inside one shared stage (A between two of its stores, B through all of its own) is a
+			// sizeable fraction of all schedules, and the run costs a fraction of a normal one
+			sc.Inputs = sc.Inputs[:1]
+			in := &sc.Inputs[0]
+			if in.Gz {
+				in.Gz, in.Name, in.GzAt = false, strings.TrimSuffix(in.Name, ".gz"), nil
+			}
+			if ls := bytes.SplitAfter(in.Data, []byte("\n")); len(ls) > 6 {
+				in.Data = bytes.Join(ls[:6], nil)
+			}
+			sc.Workers, sc.Batch, sc.Readers, sc.ConsLatPm, sc.ConsLatMs = 2, 1, 1, 0, 0
+			rc.Probes["tight-runs"]++
+		}
 		if family == "math" && sc.Workers == 1 {
 			sc.Workers = 2 + t.W(3)
 		}
@@ -798,6 +814,17 @@ func c10ReadInstant(s *simrt.Sim, sc *pipeScenario, src string, lineNo uint64) t
 	for _, in := range sc.Inputs {
 		if in.Name == src {
 			data = in.delivered()
+			if in.Gz {
+				// the fs log counts compressed bytes, line offsets are in decompressed bytes: the two do not compare (a line
+				// may come out of the decompressor long before the compressed offset reaches its decompressed offset). The first
+				// read of the file is the lower bound that is always right
+				for _, e := range s.FS.Log {
+					if e.Path == src && e.Op == "read" {
+						return e.T
+					}
+				}
+				return 0
+			}
 		}
 	}
 	// byte offset of the start of the line (the read that delivered its first byte is a lower bound)
